@@ -5,7 +5,7 @@
 set -u
 here="$(cd "$(dirname "${BASH_SOURCE[0]}")/.." && pwd)"
 cd "$here"
-names=("$@"); [ ${#names[@]} -eq 0 ] && names=($(ls seeded | grep -v '\.'))
+names=("$@"); [ ${#names[@]} -eq 0 ] && names=($(ls seeded | grep -v '\.' | grep -v '^_'))
 out="seeded/RESULTS.tsv"; tmp="$(mktemp)"
 for n in "${names[@]}"; do
   id="${n%%-*}"
